@@ -521,17 +521,25 @@ Definition chk_cfg (e : cexpr) (q : list selection * string * expr * string * li
       | _, _ => false
       end
   end.
-(* one operator call: name, configuration id, step, recorded random choice, result id, count *)
-Definition chk_op (cs : list controller) (q : string * string * Z * list string * string * Z) : bool :=
-  let '(name, cid, step, choice, rid, ret) := q in
-  match assoc name (prepare_operators cs), Catalog.from_string cid with
-  | Some o, Some c =>
-      match apply_op cs the_modification choice o c step with
-      | Some (c', k) => String.eqb (string_id c') rid && (k =? ret)
-      | None => false
-      end
-  | _, _ => false
-  end.
+(* all operator calls on one structure.  ids = identifiers of the product in the harness's order
+   (checked equal to the model's), names = operator names as returned by prepare_operators
+   (checked equal to the model's); one call = (operator index, configuration index, step,
+   recorded random choice, index of the returned identifier, returned count) *)
+Definition chk_ops (cs : list controller) (ids names : list string)
+  (calls : list (nat * nat * Z * list string * nat * Z)) : bool :=
+  let ps := product cs in
+  let ops := prepare_operators cs in
+  list_eqb String.eqb (map string_id ps) ids && list_eqb String.eqb (map fst ops) names &&
+  forallb (fun q : nat * nat * Z * list string * nat * Z =>
+    let '(oi, ci, step, choice, ri, ret) := q in
+    match nth_error ops oi, nth_error ps ci, nth_error ids ri with
+    | Some o, Some c, Some rid =>
+        match apply_op cs the_modification choice (snd o) c step with
+        | Some (c', k) => String.eqb (string_id c') rid && (k =? ret)
+        | None => false
+        end
+    | _, _, _ => false
+    end) calls.
 '''
 
 
@@ -653,7 +661,7 @@ def plan_case(rng, spec, quick, value_mode):
     sizes = [len(s) for _, s in ctrls]
     total = math.prod(sizes)
     product = [list(zip([n for n, _ in ctrls], comb)) for comb in itertools.product(*[s for _, s in ctrls])]
-    ncfg = 10 if quick else 40
+    ncfg = 8 if quick else 40
     chosen = product if len(product) <= ncfg else rng.sample(product, ncfg)
     configure = []
     for cfg in chosen:
@@ -693,8 +701,9 @@ def plan_case(rng, spec, quick, value_mode):
         for cfg in opcfgs:
             for s in sorted(steps):
                 ops.append({'op': opn, 'cfg': canon_id(cfg), 'step': s, 'inverse': inv})
-    if quick and len(ops) > 400:
-        ops = rng.sample(ops, 400)
+    cap = 300 if quick else 1500
+    if len(ops) > cap:
+        ops = rng.sample(ops, cap)
     case = {'spec': spec, 'iterate': total + 3, 'configure': configure, 'roundtrip': roundtrip, 'ops': ops,
             'explicit_max': None if total <= 100 else 100000}
     info = {'x': x, 'ctrls': ctrls, 'total': total, 'ids': ids, 'chosen': chosen,
@@ -740,15 +749,16 @@ def check_structure(ctx, sts, idx, case, info, r, items, origin):
     defs = f'Definition {ename} : cexpr := {e_txt}.\n'
     if 'ctree' in r:
         impl_ctrls = coq_list([f'({coq_string(n)}, {coq_strs(s)})' for n, s in r['controllers']])
-        items.append((defs, f'(cexpr_eqb {ename} {ctree_to_coq(r["ctree"])} && wf_cexpr {ename} && '
-                      f'wf_ctrls (central {ename}) && ctrls_eqb (central {ename}) {impl_ctrls} && '
-                      f'(number_of_configurations (central {ename}) =? {cz(r.get("number") or 0)}) && '
-                      f'same_set (map string_id (product (central {ename}))) {coq_strs(impl_ids)} && '
-                      f'same_set (all_ids (central {ename})) {coq_strs(r.get("ids") or [])} && '
+        items.append((defs, f'(let cs := central {ename} in let ai := all_ids cs in '
+                      f'cexpr_eqb {ename} {ctree_to_coq(r["ctree"])} && wf_cexpr {ename} && '
+                      f'wf_ctrls cs && ctrls_eqb cs {impl_ctrls} && '
+                      f'(number_of_configurations cs =? {cz(r.get("number") or 0)}) && '
+                      f'same_set (map string_id (product cs)) {coq_strs(impl_ids)} && '
+                      f'same_set ai {coq_strs(r.get("ids") or [])} && '
                       f'list_eqb2 (fun a b => match a with Some c => String.eqb (string_id c) b | None => false end) '
-                      f'(all_configurations (central {ename})) (all_ids (central {ename})) && '
-                      f'same_set (all_ids (central {ename})) {coq_strs(it or [])} && '
-                      f'list_eqb String.eqb (map fst (prepare_operators (central {ename}))) {coq_strs(r.get("op_names") or [])})'))
+                      f'(all_configurations cs) ai && '
+                      f'same_set ai {coq_strs(it or [])} && '
+                      f'list_eqb String.eqb (map fst (prepare_operators cs)) {coq_strs(r.get("op_names") or [])})'))
         origin.append(('structure', wit, {k: r.get(k) for k in ('controllers', 'number', 'ids', 'iteration', 'op_names', 'ctree')}))
         defs = ''
     else:
@@ -757,7 +767,7 @@ def check_structure(ctx, sts, idx, case, info, r, items, origin):
     for q, o, cfg in zip(case['configure'], r['configured'], info['chosen']):
         w = {'spec': spec, 'configuration': q['sels']}
         d = dict(cfg)
-        st_c.record({'spec_hash': json.dumps(spec, sort_keys=True), 'cfg': sorted(d.items())},
+        st_c.record((common.sha(spec), sorted(d.items())),
                     nontrivial=any(len(c['m']) > 1 for c in catalogs_of(info['x'])))
         hand = hand_subst(info['x'], d)
         hand_tree = to_tree(hand)
@@ -812,26 +822,32 @@ def check_structure(ctx, sts, idx, case, info, r, items, origin):
         pass
     calls = r.get('calls') or []
     opitems = []
+    id_index = {x: i for i, x in enumerate(ids)}
+    impl_ops = r.get('op_names') or []
+    op_index = {x: i for i, x in enumerate(impl_ops)}
+    shash = common.sha(spec)
     for q, o in zip(case['ops'], calls):
         w = {'spec': spec, 'operator': q['op'], 'configuration': q['cfg'], 'step': q['step']}
-        st_o.record({'spec_hash': json.dumps(spec, sort_keys=True), 'op': q['op'], 'cfg': q['cfg'], 'step': q['step']},
-                    nontrivial=q['step'] != 0 and total >= 2)
+        st_o.record((shash, q['op'], q['cfg'], q['step']), nontrivial=q['step'] != 0 and total >= 2)
         if not o.get('ok'):
             ctx.violation('C16/operators/exception', f'operator {q["op"]} raised on a valid configuration', w, 'a valid configuration', o)
             continue
         if o['id'] not in idset:
             ctx.violation('C16/operators/leaves-the-product', f'operator {q["op"]} returned a configuration outside the product',
                           w, 'a member of the product', o)
+            continue
         if q['inverse'] is not None and o.get('back') != q['cfg']:
             ctx.violation('C16/operators/inverse-does-not-return', f'{q["op"]} then {q["inverse"]} with the same step does not return to the start',
                           w, q['cfg'], o)
-        opitems.append(f'({coq_string(q["op"])}, {coq_string(q["cfg"])}, {cz(q["step"])}, {coq_strs(o.get("choice") or [])}, '
-                       f'{coq_string(o["id"])}, {cz(o["ret"])})')
-        if q['inverse'] is not None and 'back' in o:
-            opitems.append(f'({coq_string(q["inverse"])}, {coq_string(o["id"])}, {cz(q["step"])}, [], '
-                           f'{coq_string(o["back"])}, {cz(o["back_ret"])})')
+        if q['op'] not in op_index:
+            continue
+        opitems.append(f'({op_index[q["op"]]}%nat, {id_index[q["cfg"]]}%nat, {cz(q["step"])}, {coq_strs(o.get("choice") or [])}, '
+                       f'{id_index[o["id"]]}%nat, {cz(o["ret"])})')
+        if q['inverse'] is not None and o.get('back') in id_index and q['inverse'] in op_index:
+            opitems.append(f'({op_index[q["inverse"]]}%nat, {id_index[o["id"]]}%nat, {cz(q["step"])}, [], '
+                           f'{id_index[o["back"]]}%nat, {cz(o["back_ret"])})')
     if opitems:
-        items.append((defs, f'(forallb (chk_op (central {ename})) {coq_list(opitems, ";" + chr(10))})'))
+        items.append((defs, f'(chk_ops (central {ename}) {coq_strs(ids)} {coq_strs(impl_ops)} {coq_list(opitems, ";" + chr(10))})'))
         origin.append(('operators', {'spec': spec}, {'calls': len(opitems)}))
         defs = ''
 
@@ -849,7 +865,7 @@ def stream_structures(ctx):
                       '(thorough: also 0, negative, 7, 3*size), inverse operator applied to the result; non-trivial = step != 0 '
                       'and 2+ configurations')
     rng = ctx.sub_rng('structures')
-    n = ctx.n(44, 500)
+    n = ctx.n(36, 320)
     specs = []
     corpus_dir = ctx.scratch.parent.parent / 'corpus' / 'C16'
     for p in sorted(corpus_dir.glob('*.json')):
@@ -890,25 +906,26 @@ def stream_structures(ctx):
         a = len(items)
         check_structure(ctx, (st_s, st_c, st_o), idx, c, info, r, items, origin)
         per_struct.append((a, len(items)))
-    # Coq: a few structures per file
-    files = {}
-    groups = []
-    cur, cur_n = [], 0
+    # Coq: checks distributed over files of balanced size (a structure's definition goes with its
+    # first check, so a structure is never split)
+    blocks = []
     for (a, b) in per_struct:
-        if b == a:
-            continue
-        cur.append((a, b))
-        cur_n += b - a
-        if cur_n >= (40 if ctx.quick else 120):
-            groups.append(cur)
-            cur, cur_n = [], 0
-    if cur:
-        groups.append(cur)
+        if b > a:
+            blocks.append((sum(len(items[k][0]) + len(items[k][1]) for k in range(a, b)), a, b))
+    nfiles = max(1, min(len(blocks), 2 * common.NCPU if ctx.quick else 8 * common.NCPU))
+    bins = [[0, []] for _ in range(nfiles)]
+    for size, a, b in sorted(blocks, reverse=True):
+        tgt = min(bins, key=lambda x: x[0])
+        tgt[0] += size
+        tgt[1].append((a, b))
+    files = {}
     index_of_file = {}
-    for gi, grp in enumerate(groups):
+    for gi, (_, grp) in enumerate(bins):
+        if not grp:
+            continue
         txt = PRELUDE
         lst = []
-        for (a, b) in grp:
+        for (a, b) in sorted(grp):
             for k in range(a, b):
                 d, it = items[k]
                 txt += d
